@@ -72,7 +72,9 @@ class ZONEINFO(TZProvider):
             tz = copy.deepcopy(tz)
             for sub in tz.walk():
                 for attr in list(sub.keys()):
-                    if attr.lower().startswith("x-"):
+                    # ... or free text with characters dateutil takes for
+                    # line breaks; the zone does not depend on either
+                    if attr.lower().startswith("x-") or attr.upper() == "COMMENT":
                         sub.pop(attr)
             return self._create_timezone(tz)
 
